@@ -360,10 +360,17 @@ func genMerge(r *rand.Rand) dockerIn {
 	}
 	sorted := r.Intn(5) != 0
 	tie := r.Intn(2) == 0
+	emptyFirst := r.Intn(8) == 0 // exactly two containers of which the one listed first has logged nothing
+	if emptyFirst {
+		nc = 2
+	}
 	for c := 1; c <= nc; c++ {
 		nf := r.Intn(12)
 		if r.Intn(6) == 0 {
 			nf = r.Intn(50)
+		}
+		if emptyFirst {
+			nf = (c - 1) * (1 + r.Intn(6))
 		}
 		in.Ctrs = append(in.Ctrs, simpleCtr(fmt.Sprintf("id%d", c), fmt.Sprintf("n%d", c), genFrames(r, c, nf, sorted, tie)))
 	}
